@@ -110,6 +110,16 @@ def run(tier, seed):
                     if got != core.enc(want):
                         chk.violation({'why': 'XMATCH in a binary search mode on a strictly sorted column does not return the position of the equal key / #N/A',
                                        'lookup': repr(lv), 'keys': repr(keys), 'search_mode': sm, 'impl': got, 'want': want, 'stream': 'binary-search-exact'})
+                    # the approximate match modes: the key next to the lookup value (Python's own order as the oracle)
+                    le = [i + 1 for i, kx in enumerate(keys) if kx <= lv]
+                    ge = [i + 1 for i, kx in enumerate(keys) if kx >= lv]
+                    for mm, hits in ((-1, le), (1, ge)):
+                        want2 = '#N/A' if not hits else (max(hits) if (sm == 2) == (mm == -1) else min(hits))
+                        got2 = core.outcome(inst._xmatch, lv, rows, mm, sm)
+                        chk.count('oracle:binary-search-next')
+                        if got2 != core.enc(want2):
+                            chk.violation({'why': 'XMATCH in a binary search mode on a strictly sorted column does not return the exact match or the next smaller / larger key',
+                                           'lookup': repr(lv), 'keys': repr(keys), 'match_mode': mm, 'search_mode': sm, 'impl': got2, 'want': want2, 'stream': 'binary-search-next'})
             width = rng.randint(1, 4)
             table = [[k] + [('r%d' % i) + 'c%d' % c if c % 2 else i * 10 + c for c in range(1, width)] for i, k in enumerate(keys)]
             for rl in (False, True, 0, 1):
